@@ -12,6 +12,7 @@ import (
 	"go/ast"
 	"go/types"
 	"strconv"
+	"strings"
 
 	"golang.org/x/tools/go/types/typeutil"
 )
@@ -192,19 +193,33 @@ func (p *Prog) helperObjectMethod(g *Func) bool {
 	if !ok {
 		return false
 	}
-	for i := 0; i < st.NumFields(); i++ {
-		ft := st.Field(i).Type()
-		if isKeeperType(ft) || isCtxType(ft) {
-			return true
+	var carries func(st *types.Struct, depth int) bool
+	carries = func(st *types.Struct, depth int) bool {
+		for i := 0; i < st.NumFields(); i++ {
+			ft := st.Field(i).Type()
+			if isKeeperType(ft) || isCtxType(ft) {
+				return true
+			}
+			if _, isFn := ft.Underlying().(*types.Signature); isFn {
+				return true
+			}
+			if _, isIface := ft.Underlying().(*types.Interface); isIface {
+				return true // iterator, codec, store, sub-keeper
+			}
+			// an embedded module struct that carries them (a typed accessor built on a common base)
+			if st.Field(i).Embedded() && depth < 2 {
+				et := ft
+				if pt, ok := et.Underlying().(*types.Pointer); ok {
+					et = pt.Elem()
+				}
+				if est, ok := et.Underlying().(*types.Struct); ok && carries(est, depth+1) {
+					return true
+				}
+			}
 		}
-		if _, isFn := ft.Underlying().(*types.Signature); isFn {
-			return true
-		}
-		if _, isIface := ft.Underlying().(*types.Interface); isIface {
-			return true // iterator, codec, sub-keeper
-		}
+		return false
 	}
-	return false
+	return carries(st, 0)
 }
 
 // parametric: g takes a function value, or a module-declared struct carrying function values (a table entry).
@@ -225,10 +240,19 @@ func (p *Prog) parametric(g *Func) bool {
 		}
 		return false
 	}
+	// a mode parameter: every call passes a constant (an enum value, a flag) that selects the callee's behaviour
+	if p.constModeParam(g) {
+		return true
+	}
 	for _, pr := range g.Params {
 		T := pr.Type()
 		if _, isFn := T.Underlying().(*types.Signature); isFn {
 			return true
+		}
+		if sl, ok := T.Underlying().(*types.Slice); ok {
+			if _, isFn := sl.Elem().Underlying().(*types.Signature); isFn {
+				return true
+			}
 		}
 		if pt, ok := T.Underlying().(*types.Pointer); ok {
 			T = pt.Elem()
@@ -320,8 +344,11 @@ func substCI(ci *callInfo, f func(*Term) *Term) *callInfo {
 func (p *Prog) resolveDyn(ci *callInfo) {
 	if ci != nil && ci.name == "dyn" && ci.fn == nil && ci.fun != nil && ci.fun.Is("func") && len(ci.fun.A) >= 1 {
 		ci.fn = p.FuncNamed(ci.fun.A[0].At)
-		if len(ci.fun.A) == 2 {
+		if len(ci.fun.A) == 2 && ci.fun.A[1].Op != "env" {
 			ci.recv = ci.fun.A[1]
+		}
+		if ci.fn != nil && ci.fn.Decl != nil && ci.fn.Obj != nil {
+			ci.name = ci.fn.Name
 		}
 	}
 }
@@ -385,6 +412,10 @@ func (p *Prog) spliceable(f *Func, ev *Event) bool {
 		return false
 	}
 	g := ev.CI.fn
+	// a callee a rule asked to see through for this host (decisionPaths)
+	if fs := p.forceSplice[f]; fs != nil && fs[g] && g.Body != nil {
+		return true
+	}
 	if p.inlineTarget(g) {
 		// a pure predicate is already present as its definition in the condition it was used in
 		if p.predDef(g) != nil {
@@ -397,6 +428,10 @@ func (p *Prog) spliceable(f *Func, ev *Event) bool {
 			if h == g.Parent {
 				return true
 			}
+		}
+		// a literal that arrives with its captured environment
+		if fn := ev.CI.fun; fn != nil && fn.Is("func") && len(fn.A) == 2 && fn.A[1].Op == "env" {
+			return true
 		}
 	}
 	return false
@@ -451,7 +486,7 @@ func (p *Prog) spliceFrom(f *Func, pa *Path, from int) []*Path {
 	var sub func(*Term) *Term
 	if sp := p.specialise(g, call, pa.FactsBefore(idx)); sp != nil {
 		gpaths = sp
-		um := p.captureMap(g)
+		um := p.captureMap(g, call)
 		sub = func(t *Term) *Term {
 			if t == nil || len(um) == 0 {
 				return t
@@ -472,7 +507,7 @@ func (p *Prog) spliceFrom(f *Func, pa *Path, from int) []*Path {
 		if call.CI.recv != nil {
 			m["Precv"] = call.CI.recv
 		}
-		for k, v := range p.captureMap(g) {
+		for k, v := range p.captureMap(g, call) {
 			m[k] = v
 		}
 		sub = func(t *Term) *Term {
@@ -485,6 +520,9 @@ func (p *Prog) spliceFrom(f *Func, pa *Path, from int) []*Path {
 	if len(gpaths) == 0 {
 		return p.spliceFrom(f, pa, idx+1)
 	}
+	// calls through function values that became known declared functions are those functions' calls
+	sub0 := sub
+	sub = func(t *Term) *Term { return resolveDynTerm(sub0(t)) }
 	errIdx, hasErr := g.hasErrorResult()
 	var out []*Path
 	for _, q := range gpaths {
@@ -584,14 +622,23 @@ func (p *Prog) spliceFrom(f *Func, pa *Path, from int) []*Path {
 	return out
 }
 
-
 // captureMap: for a function literal, the enclosing function's parameters it captures (U_i) in the vocabulary
 // of the expansion in progress: the value the enclosing function's parameter is bound to, else the parameter itself.
-func (p *Prog) captureMap(g *Func) map[string]*Term {
+func (p *Prog) captureMap(g *Func, call *Event) map[string]*Term {
 	if g.Lit == nil || g.Parent == nil {
 		return nil
 	}
 	m := map[string]*Term{}
+	// a literal that left its factory carries the factory's arguments with it
+	if call != nil && call.CI != nil && call.CI.fun != nil && call.CI.fun.Is("func") && len(call.CI.fun.A) == 2 && call.CI.fun.A[1].Op == "env" {
+		env := call.CI.fun.A[1]
+		for i := range g.Parent.Params {
+			if i < len(env.A) {
+				m[fmt.Sprintf("U%d", i)] = env.A[i]
+			}
+		}
+		return m
+	}
 	bind := p.spliceBind[g.Parent]
 	for i, pr := range g.Parent.Params {
 		u := fmt.Sprintf("U%d", i)
@@ -686,4 +733,93 @@ func (p *Prog) specialise(g *Func, call *Event, facts FactSet) []*Path {
 		return nil
 	}
 	return p.splice(g, out)
+}
+
+// decisionPaths: the paths of f in which every singly-referenced callee that itself decides between the effects a
+// rule reasons about (at least two role effects under different guards) is walked in place, so that the rule sees the
+// decision together with the facts it is taken under. Where f's own code takes the decision these are f's paths.
+func (c *Check) decisionPaths(f *Func, role func(*Eff) bool) []*Path {
+	base := c.P.PathsOf(f)
+	rc := c.P.refCount()
+	force := map[*Func]bool{}
+	for _, pa := range base {
+		for _, ev := range pa.Events {
+			if ev.Kind != EvCall || ev.CI.fn == nil {
+				continue
+			}
+			g := ev.CI.fn
+			if force[g] || g == f || !g.isHandWritten() || g.Body == nil || g.Obj == nil || c.P.inlineTarget(g) || c.P.pathsBusy[g] {
+				continue
+			}
+			if rc[g.Obj] != 1 || c.P.refsOther[g.Obj] > 0 {
+				continue
+			}
+			guards := map[string]bool{}
+			n := 0
+			for _, e := range c.P.SummaryOf(g).Effs {
+				if !role(e) {
+					continue
+				}
+				n++
+				guards[strings.Join(e.Guards.Sorted(), " & ")] = true
+			}
+			if n >= 2 && len(guards) >= 2 {
+				force[g] = true
+			}
+		}
+	}
+	if len(force) == 0 {
+		return base
+	}
+	if c.P.forceSplice == nil {
+		c.P.forceSplice = map[*Func]map[*Func]bool{}
+	}
+	c.P.forceSplice[f] = force
+	defer delete(c.P.forceSplice, f)
+	return c.P.splice(f, base)
+}
+
+// constModeParam: g has a parameter of a basic (or named basic) type for which every call site in the module passes
+// a compile-time constant.
+func (p *Prog) constModeParam(g *Func) bool {
+	if g.Obj == nil {
+		return false
+	}
+	cand := map[int]bool{}
+	for i, pr := range g.Params {
+		if _, ok := pr.Type().Underlying().(*types.Basic); ok && !isCtxType(pr.Type()) {
+			cand[i] = true
+		}
+	}
+	if len(cand) == 0 {
+		return false
+	}
+	nCalls := 0
+	for _, f := range p.Funcs {
+		if f.Body == nil || f.Parent != nil || !f.isHandWritten() {
+			continue
+		}
+		info := f.Pkg.TypesInfo
+		ast.Inspect(f.Body, func(n ast.Node) bool {
+			call, ok := n.(*ast.CallExpr)
+			if !ok {
+				return true
+			}
+			if fo, _ := typeutil.Callee(info, call).(*types.Func); fo != g.Obj {
+				return true
+			}
+			nCalls++
+			for i := range cand {
+				if i >= len(call.Args) || call.Ellipsis.IsValid() {
+					delete(cand, i)
+					continue
+				}
+				if tv, ok := info.Types[call.Args[i]]; !ok || tv.Value == nil {
+					delete(cand, i)
+				}
+			}
+			return true
+		})
+	}
+	return nCalls >= 2 && len(cand) > 0
 }
